@@ -245,6 +245,7 @@ def run_case(case):
                 srh.close()
             if not sort_flag:
                 res.count("unsorted_reader_extractions")
+            xseed = 0 if case["seed"] % 1000 == 1 else case["seed"]      # one extraction per run uses seed 0 (a seed like any other)
             WE.Parallel = Scheduler
             outs = []
             nchunks = len(np.arange(0, rec.ns, chunk))
@@ -256,7 +257,7 @@ def run_case(case):
                 before_meta = b.with_suffix(".meta").read_bytes()
                 try:
                     WE.extract_wfs_cbin(b, out, times, clus, chans, max_wf=max_wf, chunksize_samples=chunk, n_jobs=int(rng.integers(1, 9)), preprocess_steps=[],
-                                        seed=case["seed"], scratch_dir=(d / f"scr{oi}") if use_c else None, **xkw)
+                                        seed=xseed, scratch_dir=(d / f"scr{oi}") if use_c else None, **xkw)
                 except Exception as e:
                     res.exception("extract:exception", e, f"{label} order {order}")
                     continue
@@ -294,7 +295,7 @@ def run_case(case):
                 Scheduler.order = None
                 other = int(rng.choice([c for c in (500, 1000, 3000, 10000) if c != chunk]))
                 try:
-                    WE.extract_wfs_cbin(b, out, times, clus, chans, max_wf=max_wf, chunksize_samples=other, n_jobs=1, preprocess_steps=[], seed=case["seed"],
+                    WE.extract_wfs_cbin(b, out, times, clus, chans, max_wf=max_wf, chunksize_samples=other, n_jobs=1, preprocess_steps=[], seed=xseed,
                                         scratch_dir=(d / "scrc") if use_c else None, **xkw)
                     cur = file_bytes(out)
                     diff = [k for k in ref if ref[k] != cur[k]]
